@@ -2,6 +2,8 @@
 
 package nutsdb
 
+import "sync"
+
 // Engine side of the scenario environment (see env_native.go for the native side).
 
 var vDirN int
@@ -28,3 +30,8 @@ func vDir() string {
 }
 
 func vCleanup() {}
+
+// lock-discipline tracing (intercepted by the engine)
+func vShare(root interface{})            {}
+func vFileAccess(write bool)             {}
+func vLockHeld(mu *sync.RWMutex) int     { return 0 }
